@@ -4,6 +4,7 @@ package main
 import (
 	"bytes"
 	"errors"
+	"flag"
 	"fmt"
 	"strings"
 
@@ -95,7 +96,16 @@ func c12Setup() {
 	xfer.Reg(c12gz)
 }
 
-func main() { runC12(ParseFlags()) }
+var c12mode = flag.String("mode", "pipe", "pipe|live")
+
+func main() {
+	cfg := ParseFlags()
+	if *c12mode == "live" {
+		runC12Live(cfg)
+		return
+	}
+	runC12(cfg)
+}
 
 func c12Payload(cfg *RunCfg) ([]byte, string) {
 	r := cfg.Rng
